@@ -744,16 +744,16 @@ def u_stack(W, sk):
 
 
 # ----------------------------------------------------------------------------------------
-# items_where (data-dependent shape: bounded run-time contract only)
+# items_where (data-dependent shape: np.argwhere under the selection-enumeration contract)
 
 
 @unit(
     "arrays.items_where",
     props=["C06"],
     targets=["flodym.flodym_arrays.FlodymArray.items_where"],
-    skeletons=lambda tier: [{"x": ALPHA[:k]} for k in range(1, 4)],
-    mode="bounded",
-    note="items_where returns one row of item labels per entry satisfying the condition: exactly the true labels (bounded: concrete arrays only, np.argwhere has a data-dependent shape)",
+    skeletons=lambda tier: [{"x": ALPHA[:k]} for k in range(1, (5 if tier == "thorough" else 4))],
+    stubs=["numpy.argwhere"],
+    note="condition = 'entry > thr' with a symbolic threshold: the result has one row per entry satisfying the condition and one column per dimension; every row holds items of the respective dimensions under which an entry satisfying the condition is stored; different rows hold different label combinations; every satisfying entry has its row. np.argwhere = enumeration of exactly the selected index tuples (contract SelOrder, symbolic number of rows)",
 )
 def u_items_where(W, sk):
     import numpy as np
@@ -761,17 +761,62 @@ def u_items_where(W, sk):
     D = mk_dims(W, sk["x"])
     dims = [D[l] for l in sk["x"]]
     x = W.array("x", dims)
-    thr = 0.0
+    snaps = SL.snapshot(W, [x])
+    if not W.symbolic:
+        thr = 0.0
+        out = W.call(lambda: x.items_where(lambda v: v > thr))
+        W.prove("items_where.returns", out.kind == "return", detail=repr(out))
+        if out.kind != "return":
+            return
+        rows = [tuple(r) for r in np.asarray(out.value).reshape(-1, len(dims)).tolist()] if np.asarray(out.value).size else []
+        want = []
+        for idx in np.ndindex(*x.values.shape):
+            if x.values[idx] > thr:
+                want.append(tuple(str(d.items[i]) for d, i in zip(dims, idx)))
+        W.prove("items_where.exactly_the_true_labels", sorted(rows) == sorted(want) and len(rows) == len(set(rows)), detail=f"got {rows[:4]} want {want[:4]}")
+        SL.check_unchanged(W, "items_where", snaps)
+        return
+    import z3
+    from fvc import symnp
+    from fvc.core import to_int, to_real, wrap
+
+    X = SL.lab(W, x)
+    thr = W.number("thr")
     out = W.call(lambda: x.items_where(lambda v: v > thr))
     W.prove("items_where.returns", out.kind == "return", detail=repr(out))
+    SL.check_unchanged(W, "items_where", snaps)
     if out.kind != "return":
         return
-    rows = [tuple(r) for r in np.asarray(out.value).reshape(-1, len(dims)).tolist()] if np.asarray(out.value).size else []
-    want = []
-    for idx in np.ndindex(*x.values.shape):
-        if x.values[idx] > thr:
-            want.append(tuple(str(d.items[i]) for d, i in zip(dims, idx)))
-    W.prove("items_where.exactly_the_true_labels", sorted(rows) == sorted(want) and len(rows) == len(set(rows)), detail=f"got {rows[:4]} want {want[:4]}")
+    R = out.value
+    k = len(dims)
+    ok = isinstance(R, symnp.SymArr) and R.ndim == 2 and isinstance(R.shape[1], int) and R.shape[1] == k
+    W.prove("items_where.one_column_per_dimension", ok, detail=f"{type(R).__name__} shape {getattr(R, 'shape', None)}")
+    if not ok:
+        return
+    sos = W.c.__dict__.get("_selorders", [])
+    W.prove("items_where.selection_contract_used", len(sos) == 1)
+    if len(sos) != 1:
+        return
+    so = sos[0]
+    M = R.shape[0]
+    W.prove("items_where.one_row_per_selected_entry", W.size_eq(M, so.M))
+    cell = lambda r, d: W.elem(R, (r, d))
+    entry = lambda idx: X.at(dict(zip(sk["x"], idx)))
+    r = W.fresh_int("row", 0, M)
+    pos = []
+    for d, dm in enumerate(dims):
+        W.prove(f"items_where.row_holds_items[{d}]", wrap(dm.items.contains_expr(to_int(cell(r, d)))))
+        pos.append(wrap(dm.items._pos(to_int(cell(r, d)))))
+    W.prove("items_where.row_labels_satisfy_condition", wrap(to_real(entry(tuple(pos))) > to_real(thr)), detail="the entry stored under the reported labels satisfies the condition")
+    ra, rb = W.fresh_int("ra", 0, M), W.fresh_int("rb", 0, M)
+    W.c.assume(to_int(ra) != to_int(rb))
+    W.prove("items_where.rows_differ", wrap(z3.Or(*[to_int(cell(ra, d)) != to_int(cell(rb, d)) for d in range(k)])), detail="no entry reported twice")
+    idx = tuple(W.fresh_int(f"i{d}", 0, W.size_of(dm)) for d, dm in enumerate(dims))
+    if bool(wrap(to_real(entry(idx)) > to_real(thr))):
+        r2 = wrap(so.row_of(idx))
+        W.prove("items_where.satisfying_entry_has_row.in_range", wrap(z3.And(to_int(r2) >= 0, to_int(r2) < to_int(M))))
+        for d, dm in enumerate(dims):
+            W.prove(f"items_where.satisfying_entry_has_row.labels[{d}]", wrap(to_int(cell(r2, d)) == dm.items.at_expr(idx[d])))
 
 
 # ----------------------------------------------------------------------------------------
